@@ -21,6 +21,11 @@ func init() {
 			ruleC19U4(r)
 			ruleFreshPerSend(r, "U5", "/transport/", "/wire", "/iscp", "/internal/")
 			ruleNoSwallowedErrors(r, "U6", 3, true, "/transport/multi")
+			le := newLockEngine(r.P)
+			ruleCloseNotBehindIO(r, le, "U7")
+			ruleLockPairingFor(r, le, "U8", "a scheduler event never leaves the selection mutex held: every function of package transport/multi that takes a lock releases it on every path (an ignored event must not make the next Write hang)", func(fn *ssa.Function) bool {
+				return fnPkgPath(fn) == modPath+"/transport/multi" && (le.Info(fn).Events > 0 || len(le.Info(fn).Reports) > 0)
+			}, 4)
 		},
 	})
 }
@@ -350,5 +355,95 @@ func ruleC19U4(r *Run) {
 			}
 		}
 		r.Check(fnName(wr)+" writes to the selected member", ok, p.pos(wr.Pos()), fnName(wr), "Write goes to transportMap[currentTransportID]")
+	}
+}
+
+// ruleCloseNotBehindIO: Close must be able to interrupt a member operation that is stuck, so it cannot queue behind the
+// lock that operation holds. Locks held across a call of a member's Read/Write (an interface call that can block for
+// as long as the link stalls) are I/O locks; no close function of the transport packages acquires one in a mode that
+// conflicts with the holder.
+func ruleCloseNotBehindIO(r *Run, le *LockEngine, id string) {
+	r.Begin(id, "Close does not wait behind a stalled write: a lock that a transport holds across a member's Read/Write/WriteUnreliable (interface call) is never acquired in a conflicting mode by a Close/CloseWithStatus of the transport packages or their helpers — closing the members is what releases the stalled call", 1)
+	p := r.P
+	ioNames := map[string]bool{"Write": true, "Read": true, "WriteUnreliable": true, "ReadUnreliable": true, "Writer": true, "Reader": true, "SendDatagram": true, "ReceiveDatagram": true}
+	type hold struct {
+		mode  int
+		where string
+	}
+	io := map[*types.Var]hold{}
+	inTransport := func(fn *ssa.Function) bool {
+		return strings.HasPrefix(fnPkgPath(fn), modPath+"/transport") && fn.Blocks != nil
+	}
+	for _, fn := range p.Funcs {
+		if !inTransport(fn) {
+			continue
+		}
+		fi := le.Info(fn)
+		allInstrs(fn, func(ins ssa.Instruction) {
+			c, ok := ins.(*ssa.Call)
+			if !ok || !c.Call.IsInvoke() || !ioNames[c.Call.Method.Name()] {
+				return
+			}
+			for k, m := range le.HeldAt(c) {
+				if f := fi.keyField[k]; f != nil {
+					if old, seen := io[f]; !seen || m > old.mode {
+						io[f] = hold{m, fnName(fn) + " (" + p.pos(c.Pos()) + ")"}
+					}
+				}
+			}
+		})
+	}
+	r.Stat("locks_held_across_member_io", len(io))
+	n := 0
+	for _, fn := range p.Funcs {
+		if !inTransport(fn) || fn.Signature.Recv() == nil {
+			continue
+		}
+		nm := strings.ToLower(fn.Name())
+		if !strings.HasPrefix(nm, "close") {
+			continue
+		}
+		name := fnName(fn)
+		seen := map[*ssa.Function]bool{}
+		var bad string
+		var badAt ssa.Instruction
+		var visit func(f *ssa.Function, d int)
+		visit = func(f *ssa.Function, d int) {
+			if f == nil || seen[f] || f.Blocks == nil || d > 3 {
+				return
+			}
+			seen[f] = true
+			allInstrs(f, func(ins ssa.Instruction) {
+				cc := instrCall(ins)
+				if cc == nil {
+					return
+				}
+				if op, recv := classifyLockCall(cc); op == opLock || op == opRLock {
+					if pt := pathOf(recv); pt != nil {
+						if h, isIO := io[pt.Last()]; isIO && (op == opLock || h.mode == modeW) {
+							bad = fmt.Sprintf("%s is held across member I/O in %s", pt.Last().Name(), h.where)
+							badAt = ins
+						}
+					}
+					return
+				}
+				if _, isGo := ins.(*ssa.Go); isGo {
+					return
+				}
+				if cal := cc.StaticCallee(); cal != nil && inTransport(cal) {
+					visit(cal, d+1)
+				}
+			})
+		}
+		visit(fn, 0)
+		n++
+		where := p.pos(fn.Pos())
+		if badAt != nil {
+			where = posOf(p, badAt)
+		}
+		r.Check(name+" takes no I/O lock", bad == "", where, name, "Close acquires a lock that a blocked member write holds ("+bad+"): with the link stalled Close never reaches the members it has to close")
+	}
+	if n == 0 {
+		r.Undecided("close functions", "no Close method found in the transport packages")
 	}
 }
